@@ -304,3 +304,32 @@ package actions
 //@     invariant len(ids) == len(subs)
 //@   loop 2
 //@     invariant forall k int :: {subs[k]} 0 <= k && k <= idx ==> wake_on_commit(subs[k].ID)
+
+// C12 / C17 / C08: creating a subscription stores exactly the requested configuration on a fresh row,
+// refuses an existing live name, validates the filter before storing it.
+//@ func (*CreateSubscription).Execute(a, ctx, tx) (err)
+//@   property C12
+//@   uses tables notifyspec
+//@   requires a != nil && tx != nil && unique_sub_names()
+//@   ensures created: err == nil ==> a.results != nil && (forall x Id :: x == a.results.ID ==> !old(subscriptions.exists(x)) && sub_named(x, a.params.Name))
+//@   ensures was_free: err == nil ==> (forall s Id :: !old(sub_named(s, a.params.Name)))
+//@   ensures already_exists: (exists s Id :: old(sub_named(s, a.params.Name))) ==> err != nil && (err == ErrExists || dbfailed())
+//@   ensures others_untouched: forall s Id :: old(subscriptions.exists(s)) ==> subscription_unchanged(s)
+//@   ensures only_one_row: forall s Id :: !old(subscriptions.exists(s)) && subscriptions.exists(s) ==> err == nil && s == a.results.ID
+//@   ensures still_unique: err == nil ==> unique_sub_names()
+//@   ensures topic_resolved: err == nil ==> topic_named(subscriptions.topic_id(a.results.ID), a.params.TopicName) && a.results.TopicID == subscriptions.topic_id(a.results.ID)
+//@   ensures config_stored: [C17] err == nil ==> (forall x Id :: x == a.results.ID ==>
+//@             subscriptions.ttl(x) == a.params.TTL && subscriptions.message_ttl(x) == a.params.MessageTTL &&
+//@             !subscriptions.ordered_delivery$null(x) && subscriptions.ordered_delivery(x) == a.params.OrderedDelivery &&
+//@             subscriptions.labels(x) == a.params.Labels &&
+//@             (subscriptions.push_endpoint$null(x) <==> a.params.PushEndpoint == "") && (a.params.PushEndpoint != "" ==> subscriptions.push_endpoint(x) == a.params.PushEndpoint) &&
+//@             (subscriptions.filter$null(x) <==> a.params.Filter == "") && (a.params.Filter != "" ==> subscriptions.filter(x) == a.params.Filter) &&
+//@             (subscriptions.min_backoff$null(x) <==> a.params.MinBackoff <= 0) && (a.params.MinBackoff > 0 ==> subscriptions.min_backoff(x) == a.params.MinBackoff) &&
+//@             (subscriptions.max_backoff$null(x) <==> a.params.MaxBackoff <= 0) && (a.params.MaxBackoff > 0 ==> subscriptions.max_backoff(x) == a.params.MaxBackoff) &&
+//@             (subscriptions.max_delivery_attempts$null(x) <==> a.params.MaxDeliveryAttempts == 0) && (a.params.MaxDeliveryAttempts != 0 ==> subscriptions.max_delivery_attempts(x) == a.params.MaxDeliveryAttempts) &&
+//@             (subscriptions.dead_letter_topic_id$null(x) <==> a.params.DeadLetterTopic == "") && (a.params.DeadLetterTopic != "" ==> topic_named(subscriptions.dead_letter_topic_id(x), a.params.DeadLetterTopic)))
+//@   ensures expiry_stamp: [C14] err == nil ==> exists now clock :: subscriptions.expires_at(a.results.ID) == now + a.params.TTL
+//@   ensures filter_validated: [C08] err == nil && a.params.Filter != "" ==> parses(a.params.Filter)
+//@   ensures wakes: [C10] err == nil ==> wake_on_commit(a.results.ID)
+//@   ensures no_swallowed_failure: [C09] dbfailed() && !old(dbfailed()) ==> err != nil
+//@   modifies T:subscriptions:*, S:dbfailed, S:wake_on_commit, F:actions.CreateSubscription:*, F:actions.createSubscriptionResults:*, F:actions.actionTimer:*
